@@ -14,7 +14,8 @@ for m in $SRC/m*/; do
   fi
   (cd $WT && PYTHONPATH=$WT timeout 600 /venv/bin/python $m/demo.py >/dev/null 2>&1); post=$?
   echo "  demo: pristine exit=$pre mutated exit=$post"
-  out=$(cd /verif && PYTHONPATH=$WT timeout 1800 ./check $PID --tier quick 2>&1); rc=$?
+  out=$(cd /verif && PYTHONPATH=$WT setsid timeout 1800 ./check $PID --tier quick 2>&1); rc=$?
+  if [ $rc -eq 124 ]; then pkill -f "metadir /verif/.work/$PID-quick-" 2>/dev/null; fi
   echo "  check exit=$rc violations=$(echo "$out" | grep -c '^VIOLATION') drift=$(echo "$out" | grep -c '^DRIFT')"
   echo "$out" | grep "signature=" | sed 's/^/    /' | sort | uniq -c | head -5
 done
